@@ -429,7 +429,9 @@ func run(c Case) evid.Outcome {
 		time.Sleep(time.Millisecond)
 	}
 	if c.Comb != "any" && runtime.NumGoroutine() > before+1 {
-		return evid.Failf("c09.goroutines-left-behind", "%d goroutines before, %d three seconds after every future settled (%s)", before, runtime.NumGoroutine(), c.Comb)
+		if left := evid.ProductGoroutines(); len(left) > 0 {
+			return evid.Failf("c09.goroutines-left-behind", "%d goroutines before, %d after every future settled (%s); still inside the package under test:\n%s", before, runtime.NumGoroutine(), c.Comb, strings.Join(left, "\n\n"))
+		}
 	}
 	sort.Strings(labels)
 	return evid.Outcome{Nontrivial: c.Comb != "none" && len(c.Steps) > 0, Labels: dedup(labels)}
